@@ -104,7 +104,7 @@ CHECKS = {
                  "negative integer or a multi-byte varint. payload lengths: one case per (page size, length, cell kind); non-trivial = payload not wholly local. Distinct = fingerprint / key."),
         "assumptions": ["system libsqlite3 (3.40.1) validates the builder", "usable size == page size (reserved space is refused by sqlittle, see C15)"],
         "min_nontrivial": {"quick": 1500, "thorough": 8000},
-        "required_classes": ["rec:overflow=true", "rec:widehdr=true", "rec:depth=3", "rec:idxdepth=2", "rec:ps=65536", "lens:ps=512:index-interior", "lens:ps=65536:table-leaf", "rec:sqlite-validated", "rec:in-header-size-stale=true", "rec:text-not-utf8=true", "rec:autovacuum=1", "rec:autovacuum=2", "rec:autovacuum-beyond-second-map-page=true", "rec:page1-interior-without-key=true"],
+        "required_classes": ["rec:overflow=true", "rec:widehdr=true", "rec:depth=3", "rec:idxdepth=2", "rec:ps=65536", "lens:ps=512:index-interior", "lens:ps=65536:table-leaf", "rec:sqlite-validated", "rec:in-header-size-stale=true", "rec:text-not-utf8=true", "rec:autovacuum=1", "rec:autovacuum=2", "rec:autovacuum-beyond-second-map-page=true", "rec:page1-interior-without-key=true", "rec:index-entries-of-2001-fields=true"],
         "timeout": {"quick": 300, "thorough": 1800},
         "jobs": [
             job("records", "c14", ["TestC14Records"], 1200, 12000, 3, 12),
@@ -320,7 +320,7 @@ CHECKS = {
                  "seen an intervening commit (classes: after dml / ddl / growth / shrink / vacuum). Distinct = fingerprint of the spec."),
         "assumptions": ["system libsqlite3 (3.40.1) is writer and reference"],
         "min_nontrivial": {"quick": 150, "thorough": 3000},
-        "required_classes": ["handle-opened-mid-transaction", "reads-refused-in-between", "read-while-sibling-handle-in-transaction", "read-while-another-connection-has-an-open-write-transaction", "read-after:dml", "read-after:ddl", "read-after:growth", "read-after:vacuum", "read-after:pagesize", "file-grew", "more-than-100-pages", "short-tail-row-read-twice", "index-redefined-under-its-name"],
+        "required_classes": ["handle-opened-mid-transaction", "reads-refused-in-between", "read-while-sibling-handle-in-transaction", "read-while-another-connection-has-an-open-write-transaction", "read-after:dml", "read-after:ddl", "read-after:growth", "read-after:vacuum", "read-after:pagesize", "file-grew", "more-than-100-pages", "short-tail-row-read-twice", "index-redefined-under-its-name", "starts-in-schema-format=2", "starts-in-schema-format=3", "every-row-rewritten"],
         "timeout": {"quick": 400, "thorough": 2400},
         "jobs": [
             job("history", "c08", ["TestC08History"], 130, 2500, 4, 12),
